@@ -378,7 +378,8 @@ pub fn execute(sc: &Scenario, env: &Env) -> (Outcome, RunStats) {
                 let ok = tool_exit(&ev) == Some(0);
                 let text = tool_text(&ev);
                 if ok {
-                    let pwd = text.lines().next().unwrap_or("").trim().to_string();
+                    // no trimming: a directory name may end in white space (".. " is an ordinary name inside the root)
+                    let pwd = text.lines().next().unwrap_or("").trim_end_matches('\r').to_string();
                     if !pwd.is_empty() && !inside(&pwd) {
                         violation = Some(Violation {
                             class: "command_ran_outside_root".into(),
